@@ -346,7 +346,81 @@ def _same_types(a, b):
     return True
 
 
-CHECKS = {"roundtrip": check_roundtrip}
+# ---------------------------------------------------------------------------
+# metadata and assembly given on the command line (--metadata FILE.json, --assembly NAME)
+# ---------------------------------------------------------------------------
+
+@st.composite
+def cli_meta_cases(draw):
+    bt = draw(gen.bin_tables(max_chroms=2, max_bins=3, max_width=6, scale=False))
+    n = gen.n_bins(bt)
+    rows = draw(gen.pixels(n, True, count=st.integers(1, 9), max_nnz=4))
+    doc = draw(st.dictionaries(st.text("abcdefghij-_ XYZ0123456789", min_size=1, max_size=8),
+                               st.one_of(gen.json_values(), st.sampled_from([1e-05, 1e+22, -2.5e-07, 6.02e23, 1e16, 1.5, 0.1])),
+                               min_size=1, max_size=4))
+    return {"part": "cli-meta", "bt": bt, "rows": [r[:3] for r in rows], "metadata": doc, "assembly": draw(ASSEMBLY),
+            "route": draw(st.sampled_from(["load-coo", "load-bg2", "cload-pairs"])), "indent": draw(st.sampled_from([None, 2]))}
+
+
+def check_cli_meta(case, ctx: Ctx):
+    import os
+
+    import cooler
+
+    from ..cliutil import run_cli
+
+    bt, rows = case["bt"], case["rows"]
+    br = model.bins_rows(bt)
+    d = ctx.tmpdir()
+    try:
+        bed = os.path.join(d, "bins.bed")
+        with open(bed, "w") as f:
+            for c, s, e in br:
+                f.write(f"{c}\t{s}\t{e}\n")
+        mpath = os.path.join(d, "meta.json")
+        with open(mpath, "w") as f:
+            json.dump(case["metadata"], f, indent=case["indent"])
+        txt = os.path.join(d, "in.txt")
+        out = os.path.join(d, "out.cool")
+        with open(txt, "w") as f:
+            for i, j, v in rows:
+                if case["route"] == "load-coo":
+                    f.write(f"{i}\t{j}\t{v}\n")
+                elif case["route"] == "load-bg2":
+                    f.write(f"{br[i][0]}\t{br[i][1]}\t{br[i][2]}\t{br[j][0]}\t{br[j][1]}\t{br[j][2]}\t{v}\n")
+                else:
+                    for _ in range(v):
+                        f.write(f"r\t{br[i][0]}\t{br[i][1] + 1}\t{br[j][0]}\t{br[j][1] + 1}\t+\t-\n")
+        if case["route"] == "cload-pairs":
+            args = ["cload", "pairs", bed, txt, out, "-c1", 2, "-p1", 3, "-c2", 4, "-p2", 5]
+        else:
+            args = ["load", "-f", case["route"].split("-")[1], bed, txt, out]
+        args += ["--metadata", mpath]
+        if case["assembly"] is not None:
+            args += ["--assembly", case["assembly"]]
+        rc, _, exc = run_cli(args)
+        check(rc == 0 and exc is None, f"cooler {args[0]} {args[1]} --metadata failed: exit {rc} {exc!r}")
+        clr = cooler.Cooler(out)
+        info = clr.info
+        check(info["metadata"] == case["metadata"] and _same_types(info["metadata"], case["metadata"]),
+              lambda: f"metadata given as {case['metadata']!r} through --metadata came back as {info['metadata']!r}")
+        asm = case["assembly"]
+        if asm is None:
+            check(info["genome-assembly"] == "unknown", "default assembly")
+        elif info["genome-assembly"] != asm or type(info["genome-assembly"]) is not str:
+            if _is_json_literal(asm) and info["genome-assembly"] == json.loads(asm):
+                ctx.known_finding("C01-assembly-json-literal", case, f"assembly {asm!r} reads back as {info['genome-assembly']!r}")
+            else:
+                raise Violation(f"--assembly {asm!r} reads back as {info['genome-assembly']!r}")
+        df = clr.pixels()[:]
+        got = [[a, b, c] for a, b, c in zip(df["bin1_id"].tolist(), df["bin2_id"].tolist(), df["count"].tolist())]
+        check(got == rows, lambda: f"pixels {got} want {rows}")
+    finally:
+        ctx.clean(d)
+    ctx.record(case, True, ["cli-meta", "meta-route=" + case["route"]])
+
+
+CHECKS = {"roundtrip": check_roundtrip, "cli-meta": check_cli_meta}
 
 
 def replay(ctx: Ctx, case):
@@ -356,8 +430,12 @@ def replay(ctx: Ctx, case):
 def run(ctx: Ctx):
     q = ctx.tier == "quick"
     if q:
-        run_given(ctx, "roundtrip", cases(4, 6), check_roundtrip, per_shard(ctx, 5600), batch=100)
+        if not run_given(ctx, "roundtrip", cases(4, 6), check_roundtrip, per_shard(ctx, 5000), batch=100):
+            return
+        run_given(ctx, "cli-meta", cli_meta_cases(), check_cli_meta, per_shard(ctx, 160), batch=20)
     else:
+        if not run_given(ctx, "cli-meta", cli_meta_cases(), check_cli_meta, per_shard(ctx, 4000), batch=50):
+            return
         if not run_given(ctx, "roundtrip", cases(4, 6), check_roundtrip, per_shard(ctx, 90000), batch=200):
             return
         run_given(ctx, "roundtrip-large", cases(8, 8), check_roundtrip, per_shard(ctx, 40000), batch=200)
